@@ -256,12 +256,14 @@ def generic(prop, ctx, nq, nt, steps, rule, weights=None, extra=None, **kw):
     res.extra['corpus_scenarios'] = len(corpus)
     n = nq if ctx['tier'] == 'quick' else nt
     ws = walks(ctx, n, steps, 0, weights=weights, **kw)
-    run_scenarios(prop, ctx, ws, res)
+    t1 = run_scenarios(prop, ctx, ws, res)
     res.extra['op_histogram'] = op_histogram(ws)
+    res.all_traces = [(c[0], c[1], None) for c in corpus] + [(w[0], w[1], t) for w, t in zip(ws, t1)]
     if extra is not None:
         ex = extra(ctx)
-        run_scenarios(prop, ctx, ex, res, label='enumerated')
+        t2 = run_scenarios(prop, ctx, ex, res, label='enumerated')
         res.extra['enumerated_scenarios'] = len(ex)
+        res.all_traces += [(e[0], e[1], t) for e, t in zip(ex, t2)]
     if ws:
         res.sample(ws[0][1][:14])
     res.assumptions = ['Env: operations name existing protocols/timers; `lost p` at most once per protocol and no dataReceived after it; at most one '
@@ -593,11 +595,64 @@ def c17(ctx):
                    weights=dict(QUIET, publish=16, subscribe=8, unsubscribe=8, puback=6, pubrec=4, pubcomp=4, suback=4, unsuback=4, setwin=4, lost=3, fire=4), extra=extra, naddr=2)
 
 
+def strict_decode_writes(ctx, res, prop):
+    """every packet written during the campaign's scenarios must parse with the strict reference decoder (Spec.decode, written from
+    the OASIS text and run in the Lean driver) as a client-to-broker packet of the connection's protocol version"""
+    import codec_check as cc
+    if not ctx['model_ok']:
+        return
+    lines, meta = [], []
+    for name, scen, tr in getattr(res, 'all_traces', []):
+        if tr is None:
+            continue
+        ver = {}
+        for i, (op, obs) in enumerate(tr):
+            t = op.split()
+            if t and t[0] == 'connect' and len(t) > 4 and any(o.startswith('ret pending') for o in obs):
+                ver[int(t[1])] = t[4]          # the version of the accepted connect() call
+            for o in obs:
+                if o.startswith('w '):
+                    _, p, h = o.split()
+                    lines.append('codec specdec %s %s' % ('31' if ver.get(int(p)) == '31' else '311', h))
+                    meta.append((name, scen[:i + 1], o))
+    outs = cc.run_lines(lines) if lines else []
+    nbad = 0
+    for (name, scen, o), r in zip(meta, outs):
+        if r == 'none':
+            nbad += 1
+            if nbad <= 5:
+                res.violations.append(dict(what='%s: a packet written to the transport is not a well-formed client packet per the reference decoder: %s (%s)' % (prop, o[:80], name),
+                                           signature='%s strict-decode' % prop, scenario=scen))
+    res.extra['writes_strictly_decoded'] = len(lines)
+
+
 def c18(ctx):
+    res = _c18(ctx)
+    if not ctx.get('replay'):
+        strict_decode_writes(ctx, res, 'C18')
+    return res
+
+
+def _c18(ctx):
+    def extra(ctx):
+        # argument shapes at the edge of what the API accepts, on every profile and version: whatever is written for them must be a
+        # well-formed packet (empty topic lists, empty strings, the longest strings, every optional CONNECT field empty)
+        out = []
+        E = s_tok('')
+        L = s_tok('x' * 65535)
+        for prof in (3, 1, 2):
+            for ver in ('311', '31'):
+                for cid, rest in ((s_tok('c'), ''), (E, ''), (s_tok('c'), ' %s %s 1 0 %s %s' % (E, E, E, E)), (s_tok('c'), ' %s %s 2 1 %s n' % (s_tok('w'), E, s_tok('u')))):
+                    pre = ['factory %d' % prof, 'build a0', 'sethandlers 0 7', 'connect 0 %s 0 %s 0%s' % (cid, ver, rest), 'recv 0 20020000', 'setwin 0 8']
+                    sc = pre + ['subscribe 0 l: 0', 'unsubscribe 0 L:', 'subscribe 0 %s 0' % E, 'unsubscribe 0 %s' % E, 'subscribe 0 %s 2' % L,
+                                'publish 0 %s b: 0 0' % E, 'publish 0 %s b: 1 1' % E, 'publish 0 %s s: 2 0' % L, 'fire 0', 'fire 1', 'fire 2', 'lost 0 done']
+                    out.append(('edge-%d-%s' % (prof, ver), sc))
+        return out
     res = generic('C18', ctx, 250, 6000, 60,
                   'corpus; seeded walks in all profiles including API calls and timer expiries between disconnect()/abort and the loss report, and connect() on idle-again protocols; every write is '
-                  'judged by the monitor and the complete byte stream of every transport is parsed by the strict reference decoder (Lean driver)',
-                  weights=dict(garbage=1, badcall=1, connect_bad=1, disconnect=3, fire=12, lost=4, connack_bad=3), allow_api_after_lost=True, reconnect_idle_again=True)
+                  'judged by the monitor and every packet written is parsed by the strict reference decoder (Spec.decode in the Lean driver) under the connection\'s protocol version; '
+                  'enumerated: edge argument shapes (empty topic lists, empty and longest strings, empty optional CONNECT fields) on every profile and version',
+                  weights=dict(garbage=1, badcall=1, connect_bad=1, disconnect=3, fire=12, lost=4, connack_bad=3), allow_api_after_lost=True, reconnect_idle_again=True, extra=extra)
     return res
 
 
@@ -646,6 +701,18 @@ def c16(ctx):
                         if len(sc) > 80:
                             out.append(('shortstr', sc + ['lost 0 done'])); sc = list(pre)
             out.append(('shortstr', sc + ['lost 0 done']))
+        # the same on a clean receive buffer: one short byte string per connection (in the chained form above whatever follows a partial
+        # packet is framed as its continuation), followed by a valid PUBLISH that must still be framed correctly or be preceded by an abort
+        iso_bodies = [(), (0x00,), (0x02, 0x00), (0xff,)] if ctx['tier'] == 'quick' else bodies[:20]
+        for prof in ((3,) if ctx['tier'] == 'quick' else (3, 1, 2)):
+            pre = ['factory %d' % prof, 'build a0', 'sethandlers 0 7', 'connect 0 %s 0 311 0' % s_tok('c'), 'recv 0 20020000', 'setwin 0 4']
+            if prof in (2, 3):
+                pre += ['publish 0 %s b:41 1 0' % s_tok('t'), 'publish 0 %s b:42 2 0' % s_tok('u')]
+            if prof in (1, 3):
+                pre += ['subscribe 0 %s 1' % s_tok('s')]
+            for fb in range(256):
+                for body in iso_bodies:
+                    out.append(('iso', pre + ['recv 0 %s' % hx(bytes((fb,) + body)), 'recv 0 %s' % hx(publish_pkt('ok', b'1', 0)), 'lost 0 done']))
         for prof in (3, 1):
             pre = ['factory %d' % prof, 'build a0', 'sethandlers 0 7', 'connect 0 %s 0 311 0' % s_tok('c'), 'recv 0 20020000']
             for fb in (0x36, 0x37, 0x3E, 0x3F):
@@ -663,12 +730,10 @@ def c16(ctx):
                     for x in (0x00, 0x01, 0x7f, 0x80, 0xff, v[i] ^ 0x08, v[i] ^ 0x01):
                         if x != v[i]:
                             muts.append(v[:i] + bytes([x]) + v[i + 1:])
-                sc = list(pre)
+                # one mutant per connection: a truncated or over-long packet leaves bytes in the receive buffer, and everything delivered
+                # after it on the same connection would be framed differently (the first version of this family chained them)
                 for m in muts:
-                    sc.append('recv 0 %s' % hx(m))
-                    if len(sc) > 120:
-                        out.append(('mut', sc + ['lost 0 done'])); sc = list(pre)
-                out.append(('mut', sc + ['lost 0 done']))
+                    out.append(('mut', pre + ['recv 0 %s' % hx(m), 'recv 0 %s' % hx(publish_pkt('ok', b'1', 0)), 'lost 0 done']))
         return out
     return generic('C16', ctx, 200, 5000, 60,
                    'corpus; seeded walks with random garbage, wrong calls and refused/reserved CONNACK codes; enumerated malformed stream: every first byte 0..255 (quick: full only for profile 3 '
@@ -738,9 +803,9 @@ def c20(ctx):
             out.append(('subscribe %d %s %s' % (p, s_tok('t'), q), True))
             out.append(('subscribe %d t:%s,%s 0' % (p, tk, q), True))
             out.append(('subscribe %d l:%s,0;%s,%s 0' % (p, tk, tk, q), True))
-        for a in ('i:5', 'n', 'f:1.5', 'l:i=5,0', 'l:n,1', 't:n,0', S65536, 'l:%s,1' % S65536.replace(':', '='), S65535):
+        for a in ('i:5', 'n', 'f:1.5', 'l:i=5,0', 'l:n,1', 't:n,0', S65536, 'l:%s,1' % S65536.replace(':', '='), S65535, 'l:'):
             out.append(('subscribe %d %s 0' % (p, a), True))
-        for a in ('i:5', 'n', 't:%s,0' % tk, 'L:i=5', 'L:n', S65536, 'L:%s;%s' % (tk, S65536.replace(':', '=')), S65535, s_tok('t'), 'L:%s;%s' % (tk, tk)):
+        for a in ('i:5', 'n', 't:%s,0' % tk, 'L:i=5', 'L:n', S65536, 'L:%s;%s' % (tk, S65536.replace(':', '=')), S65535, s_tok('t'), 'L:%s;%s' % (tk, tk), 'L:'):
             out.append(('unsubscribe %d %s' % (p, a), True))
         return out
 
